@@ -222,11 +222,16 @@ pub fn run(ctx: &Ctx) -> (Outcome, String, Option<bool>) {
     }
     let o = run_enumeration(ctx, "activation-boundary", bcases, |(net, ms), st, shard| boundary_case(*net, ms.parse().unwrap(), st, shard));
     out.absorb(o);
-    let rule = format!("Enumerated: all 256 deltas x multipliers {{0..{} step {}}} + {{2^k-2..2^k+2 : 7<=k<=69}} + {{2^70-2, 2^70-1, 2^70}} + pseudo-random values below 2^70 + a few values around 2^100, 2^126, 2^127 and 2^128-1 ({} multipliers), on Custom02 (TIP-901 active) and on Mainnet and Testnet at height 0 (TIP-901 inactive; every third chunk), plus sealing without action, plus runs of 300 blocks of extreme deltas (-128, 127, -1, 1 in stretches of 40) from selected starting points. Additionally, for 13 starting multipliers, the blocks at heights activation-2 .. activation+2 of TIP-901 on mainnet (42 700; state re-based through from_block) and testnet (500; reached with empty blocks) are sealed with deltas -128, -64, -1, 1, 64, 127. Oracle: m' = m + trunc(max(m>>7, 2 if TIP-901) * d / 128) in exact integer arithmetic; where that leaves [0, 2^128) the only requirement is that sealing does not fail and the multiplier does not move the wrong way or wrap; no action => unchanged. Non-trivial = (m, d) with d != 0; distinct by (m, d, TIP-901).", if ctx.thorough() { 16384 } else { 4096 }, if ctx.thorough() { 1 } else { 2 }, ms.len());
+    out.absorb(crate::runner::run_sharded(ctx, "sampled-heights", ctx.scale(250, 4000), arb_at_height, |c, st, shard| check_at_height(c, st, shard)));
+    let rule = format!("Sampled: mainnet and testnet states re-based at heights drawn uniformly from 3..2 000 000 (TIP-906 barrier crossed honestly), multiplier installed through the header from 12 classes (0, 1, 2, 127, 128, 10^3, 10^6, 2^63-1, 2^63, 2^70+5, 2^100, 2^128-4), 1-4 blocks sealed with extreme and random deltas. Enumerated: all 256 deltas x multipliers {{0..{} step {}}} + {{2^k-2..2^k+2 : 7<=k<=69}} + {{2^70-2, 2^70-1, 2^70}} + pseudo-random values below 2^70 + a few values around 2^100, 2^126, 2^127 and 2^128-1 ({} multipliers), on Custom02 (TIP-901 active) and on Mainnet and Testnet at height 0 (TIP-901 inactive; every third chunk), plus sealing without action, plus runs of 300 blocks of extreme deltas (-128, 127, -1, 1 in stretches of 40) from selected starting points. Additionally, for 13 starting multipliers, the blocks at heights activation-2 .. activation+2 of TIP-901 on mainnet (42 700; state re-based through from_block) and testnet (500; reached with empty blocks) are sealed with deltas -128, -64, -1, 1, 64, 127. Oracle: m' = m + trunc(max(m>>7, 2 if TIP-901) * d / 128) in exact integer arithmetic; where that leaves [0, 2^128) the only requirement is that sealing does not fail and the multiplier does not move the wrong way or wrap; no action => unchanged. Non-trivial = (m, d) with d != 0; distinct by (m, d, TIP-901).", if ctx.thorough() { 16384 } else { 4096 }, if ctx.thorough() { 1 } else { 2 }, ms.len());
     (out, rule, Some(true))
 }
 
 pub fn replay(case: &serde_json::Value) -> Check {
+    if case.get("m_sel").is_some() {
+        let c: AtHeight = serde_json::from_value(case.clone()).map_err(|e| Violation::new("replay-format", e.to_string()))?;
+        return check_at_height(&c, &mut Stats::default(), 200);
+    }
     if let Ok((net, ms)) = serde_json::from_value::<(u8, String)>(case.clone()) {
         let mut st = Stats::default();
         return boundary_case(net, ms.parse().unwrap_or(0), &mut st, 200);
@@ -234,6 +239,83 @@ pub fn replay(case: &serde_json::Value) -> Check {
     let c: Case = serde_json::from_value(case.clone()).map_err(|e| Violation::new("replay-format", e.to_string()))?;
     let mut st = Stats::default();
     check_case(&c, &mut st, 200)
+}
+
+/// The step rule at heights sampled anywhere below 2 000 000 on mainnet and testnet (the TIP-906 barrier crossed
+/// honestly where the target lies beyond it), with the multiplier installed by re-basing the state on a header that
+/// carries it: ordinary and extreme multipliers, every delta class.
+#[derive(Clone, Debug, serde::Serialize, serde::Deserialize)]
+pub struct AtHeight {
+    pub net: u8,
+    pub height: u32,
+    pub m_sel: u8,
+    pub deltas: Vec<i8>,
+}
+
+pub fn arb_at_height() -> impl proptest::strategy::Strategy<Value = AtHeight> {
+    use proptest::prelude::*;
+    (any::<u8>(), 3u32..2_000_000, any::<u8>(), proptest::collection::vec(prop_oneof![Just(-128i8), Just(127), Just(-1), Just(1), Just(-64), any::<i8>()], 1..5))
+        .prop_map(|(net, height, m_sel, deltas)| AtHeight { net, height, m_sel, deltas })
+}
+
+pub fn check_at_height(c: &AtHeight, st: &mut Stats, shard: usize) -> Check {
+    st.eval();
+    let net = if c.net % 2 == 0 { NetID::Mainnet } else { NetID::Testnet };
+    let barrier = if net == NetID::Mainnet { 829_999u64 } else { 499 };
+    let target = c.height as u64;
+    let mut w = World::new(genesis(net, 1000), shard);
+    if target > barrier + 2 {
+        if !crate::plan::teleport(&mut w, barrier, st) {
+            return Ok(());
+        }
+        for _ in 0..2 {
+            if !matches!(w.seal(None), crate::world::Outcome::Ok(_)) {
+                return Ok(());
+            }
+        }
+    }
+    if target > w.height() + 1 && !crate::plan::teleport(&mut w, target, st) {
+        return Ok(());
+    }
+    let ms: [u128; 12] = [0, 1, 2, 127, 128, 1000, 1_000_000, (1 << 63) - 1, 1 << 63, (1 << 70) + 5, 1 << 100, u128::MAX - 3];
+    let mut m = ms[c.m_sel as usize % ms.len()];
+    // install the multiplier: re-base the last sealed state on a header that carries it
+    let s0 = match w.seal(None) {
+        crate::world::Outcome::Ok(s) => s,
+        _ => return Ok(()),
+    };
+    let mut blk = s0.to_block();
+    blk.header.fee_multiplier = m;
+    let r = match catch(|| crate::world::Sealed::from_block(&blk, &s0.raw_stakes(), &w.db)) {
+        Ok(r) => r,
+        Err(_) => return Ok(()),
+    };
+    let hd = r.header();
+    w.headers.insert(hd.height.0, hd);
+    w.cur = r.next_unsealed();
+    w.last_sealed = Some(r);
+    for d in c.deltas.iter().copied() {
+        let h = w.height();
+        let t901 = crate::refstf::tips_at(net, h).t901;
+        match w.seal(Some(ProposerAction { fee_multiplier_delta: d, reward_dest: dest_for(h ^ m as u64) })) {
+            crate::world::Outcome::Ok(s) => {
+                let got = s.header().fee_multiplier;
+                let (want, clamped) = spec(m, d, t901);
+                if !clamped && got != want {
+                    viol!("step-wrong-at-sampled-height", "{:?} block {} (TIP-901 active: {}): multiplier {} with delta {} became {}, specified {}", net, h, t901, m, d, got, want);
+                }
+                if clamped && ((d < 0 && got > m) || (d > 0 && got < m)) {
+                    viol!("wrapped-around", "{:?} block {}: multiplier {} with delta {} became {}", net, h, m, d, got);
+                }
+                m = got;
+            }
+            crate::world::Outcome::Panicked(p) => viol!("seal-panics-at-sampled-height", "{:?} block {}: multiplier {} delta {}: {}", net, h, m, d, p.message),
+            _ => break,
+        }
+    }
+    st.class(if net == NetID::Mainnet { "sampled-height-mainnet" } else { "sampled-height-testnet" });
+    st.nontrivial(crate::util::h64(format!("{:?}", c).as_bytes()));
+    Ok(())
 }
 
 fn boundary_case(net_sel: u8, m0: u128, st: &mut Stats, shard: usize) -> Check {
